@@ -181,6 +181,7 @@ def diagnose(inst, sites):
     self_edges, order_edges = set(), set()
     released, two_phase, balanced = False, True, True
     wdone, vbm, vbm_sites = False, True, set()
+    hold_edges = set()   # every (wanted site | held class:mode -> wanted class:mode | held site) of a blocking acquisition, with or against the order
     rank = lambda l: inst.locks.get(l, ("", 0, ""))[1]
     tracked = lambda l: inst.locks.get(l, ("", 0, ""))[2].endswith("@before")
     for kind, mode, lock, cls, site, ak in inst.events:
@@ -194,6 +195,8 @@ def diagnose(inst, sites):
                     self_edges.add("%s | %s | %s | %s:%s -> %s:%s | self | %s" % (inst.cls, sname, ak, hc, hm, cls, mode, sites.name(hs)))
             blocking = ak == "B"
             if blocking:
+                for (hl, hm, hc, hs) in held:
+                    hold_edges.add("%s | %s:%s -> %s:%s | %s" % (sname, hc, hm, cls, mode, sites.name(hs)))
                 for (hl, hm, hc, hs) in held:
                     if rank(hl) >= rank(lock):
                         rel = "same-lock" if hl == lock else "against-order"
@@ -214,7 +217,8 @@ def diagnose(inst, sites):
                 balanced = False
     if held:
         balanced = False
-    return {"self_edges": self_edges, "order_edges": order_edges, "two_phase": two_phase, "balanced": balanced, "vbm": vbm, "vbm_sites": vbm_sites}
+    return {"self_edges": self_edges, "order_edges": order_edges, "two_phase": two_phase, "balanced": balanced, "vbm": vbm, "vbm_sites": vbm_sites,
+            "hold_edges": hold_edges}
 
 
 # ----------------------------------------------------------------------------- running the harness
@@ -270,13 +274,16 @@ def make_baseline(insts, verd, diags):
                     "self_edges / order_edges: the violating edges that exist today (each is part of a recorded finding or of the "
                     "documented model->element direction); a NEW edge or an instance that loses a criterion breaks the obligation.",
          "instances": {}, "self_edges": [], "order_edges": []}
-    se, oe = set(), set()
+    se, oe, he = set(), set(), set()
     for i, v, d in zip(insts, verd, diags):
+        he |= d["hold_edges"]
         b["instances"][i.key] = {"result": i.result.split(":")[0] if not i.result.startswith("err") else i.result, "verdict": bv(v)}
         se |= d["self_edges"]
         oe |= d["order_edges"]
     b["self_edges"] = sorted(se)
     b["order_edges"] = sorted(oe)
+    # the whole hold-and-wait graph (blocking acquisitions while holding something), without the operation class
+    b["hold_edges"] = sorted(he)
     return b
 
 
@@ -292,6 +299,7 @@ def compare(insts, verd, diags, base, which):
     verd = [bv(v) for v in verd]
     base_inst = base.get("instances", {})
     base_se, base_oe = set(base.get("self_edges", [])), set(base.get("order_edges", []))
+    base_he = set(base.get("hold_edges", []))
     for i, v, d in zip(insts, verd, diags):
         b = base_inst.get(i.key)
         if b is None:
@@ -316,6 +324,10 @@ def compare(insts, verd, diags, base, which):
         if "order" in which:
             for e in sorted(d["order_edges"] - base_oe):
                 reg.append({"kind": "order", "instance": i.key, "detail": "new blocking edge against the lock order: " + e})
+            if base_he:
+                for e in sorted(d["hold_edges"] - base_he):
+                    reg.append({"kind": "order", "instance": i.key, "detail": "new hold-and-wait edge (a lock is now held across this blocking acquisition; "
+                                "with the recorded against-order edges it can close a new cycle): " + e})
     return reg, notes
 
 
@@ -502,11 +514,17 @@ QUICK_PAIRS = [
     ("S2", "add_to_file/ancestor_needs_extension", "serialize_files/model"), ("S2", "add_to_file/ancestor_needs_extension", "serialize/element"),
     ("S2", "add_to_file/ancestor_needs_extension", "serialize/file"), ("S2", "add_to_file/ancestor_needs_extension", "sort/model"),
     ("S2", "add_to_file/ancestor_needs_extension", "remove_sub_element/subtree"), ("S2", "add_to_file/ancestor_needs_extension", "elements_dfs/model"),
+    # file operations that delete a package restricted to the removed file, against READERS of the package's parent
+    ("S2", "remove_file/second", "get_sub_element/pkgs_byname"), ("S2", "remove_file/second", "serialize/pkgs"),
+    ("S2", "remove_file/second", "serialize/file"), ("S2", "remove_from_file/second", "get_sub_element/pkgs_byname"),
+    ("S2", "remove_from_file/second", "serialize/pkgs"), ("S2", "remove_from_file/second", "elements_dfs/model"),
     # a move whose destination lies below the moved element's current parent, against readers / writers walking down from that parent
     ("S3", "move_element_here/into_sibling_subtree", "serialize/element"), ("S3", "move_element_here/into_sibling_subtree", "serialize/file"),
     ("S3", "move_element_here_at/into_sibling_subtree", "sort/model"), ("S3", "move_element_here/into_sibling_subtree", "remove_sub_element/subtree"),
 ]
 TRIPLES = [
+    # copier of a referenced element, check_references (model read lock, then the referenced elements), a writer queueing on the source
+    ("S1", "create_copied_sub_element/local", "check_references/model", "set_item_name/referenced"),
     ("S1", "serialize/element", "set_attribute/ok", "path/named"), ("S1", "set_item_name/referenced", "set_reference_target/ok", "check_references/model"),
     ("S1", "load_buffer/merge", "load_buffer/merge2", "serialize/file"), ("S1", "create_named_sub_element/ok", "remove_sub_element/subtree", "path/named"),
     ("S1", "sort/element", "ord_cmp/siblings", "set_attribute/ok"), ("S4", "serialize/file", "serialize/file2", "create_file/new"),
@@ -604,6 +622,14 @@ def deadlock_edges(sig_stable):
         for hm, hc, hsite in holds:
             ed.add((wsite, "%s:%s -> %s:%s" % (hc, hm, wc, wm), hsite))
     return ed
+
+
+def hold_edge_index(base):
+    idx = set()
+    for e in list(base.get("hold_edges", [])) + list(base.get("c15_extra_deadlock_edges", [])):
+        f = [x.strip() for x in e.split("|")]
+        idx.add((f[0], f[1], f[2]))
+    return idx
 
 
 def edge_finding_class(edge):
@@ -841,6 +867,8 @@ if __name__ == "__main__":
         nb["c16_locked_with_effect"] = old.get("c16_locked_with_effect", [])
         # written by `python3 checks/c16.py baseline-pairs`
         nb["c16_serializable_pairs"] = old.get("c16_serializable_pairs", [])
+        # written by `python3 checks/c15.py baseline-deadlocks`: hold-and-wait edges that only occur in concurrent runs
+        nb["c15_extra_deadlock_edges"] = old.get("c15_extra_deadlock_edges", [])
         json.dump(nb, open(BASELINE, "w"), indent=1, sort_keys=True)
         print("baseline written: %d instances" % len(insts))
     else:
